@@ -223,16 +223,19 @@ func init() {
 			fmt.Println("ontology:", err)
 			return 2
 		}
+		var judgeResp func(sc *sim.Scenario, kind string, supplied M, rp sim.Response, tag string)
 		judge := func(sc *sim.Scenario, kind string, supplied M) {
 			res := sim.Run(sc)
 			r.Eval(1)
 			observeLog(r, res)
-			rp := res.Responses[0]
+			judgeResp(sc, kind, supplied, res.Responses[0], "")
+		}
+		judgeResp = func(sc *sim.Scenario, kind string, supplied M, rp sim.Response, tag string) {
 			if rp.Panic != "" {
 				return
 			}
 			viol := func(rule, site, feature, msg string) {
-				r.Violate(verdict.Sig{Rule: "C20." + rule, Site: site, Feature: feature}, witness{Scenario: sc},
+				r.Violate(verdict.Sig{Rule: "C20." + rule, Site: site, Feature: feature + tag}, witness{Scenario: sc},
 					map[string]interface{}{"message": msg, "response": rp})
 			}
 			site := "pub.(*baseActor)." + kind
@@ -294,8 +297,8 @@ func init() {
 			// the statement fixes the bytes written, not the number of Write
 			// calls they arrive in (rp.Body is their concatenation): counted only
 			r.Count(fmt.Sprintf("write_calls.%d", rp.Writes), 1)
-			r.Count("bodies_compared."+kind, 1)
-			r.NonTrivial(sc.Name + "|" + jstr(supplied) + fmt.Sprint(sc.Cfg.ClockUnix))
+			r.Count("bodies_compared."+kind+tag, 1)
+			r.NonTrivial(sc.Name + tag + "|" + jstr(supplied) + fmt.Sprint(sc.Cfg.ClockUnix))
 		}
 		clock := func(sc *sim.Scenario, g *prng.R) {
 			lo, hi := int64(-62135596800), int64(253402300799)
@@ -436,6 +439,67 @@ func init() {
 					judge(sc, "Handler", doc)
 				})
 			}
+		}
+		// two GETs interleaved: the first is preempted inside one of its
+		// ResponseWriter calls while the second is served completely (the
+		// library may keep no state of one response where another request
+		// can reach it); both responses are judged like any other
+		nInter := 600
+		if thorough() {
+			nInter = 20000
+		}
+		for i := 0; i < nInter; i++ {
+			i := i
+			jobs = append(jobs, func() {
+				g := prng.New(r.SeedV, "c20.interleaved", i)
+				sc := baseScenario()
+				clock(sc, g)
+				kinds := []string{"GetInbox", "GetOutbox", "Handler"}
+				mk := func(kind string, n int) (sim.Request, M) {
+					switch kind {
+					case "GetInbox":
+						p := genPage(g, aliceIn())
+						sc.InboxPage = p
+						return sim.GetReq(kind, aliceIn()), p
+					case "GetOutbox":
+						p := genPage(g, aliceOut())
+						sc.OutboxPage = p
+						return sim.GetReq(kind, aliceOut()), p
+					}
+					id := fmt.Sprintf("%s/notes/il%d", L, n)
+					doc := M{"@context": AS, "type": pick(g, "Note", "Article", "Tombstone"), "id": id, "content": strings.Repeat("x", g.Intn(400))}
+					if g.Bool() {
+						doc["bto"] = R1 + "/actors/hidden"
+					}
+					sc.Store[id] = doc
+					return sim.GetReq("Handler", id), doc
+				}
+				k1 := kinds[g.Intn(3)]
+				k2 := kinds[g.Intn(3)]
+				for (k2 == k1) && k1 != "Handler" {
+					k2 = kinds[g.Intn(3)] // one page per box and scenario
+				}
+				outer, sup1 := mk(k1, 1)
+				inner, sup2 := mk(k2, 2)
+				outer.DuringAt = pick(g, "Header", "WriteHeader", "Write")
+				outer.During = []sim.Request{inner}
+				sc.Requests = []sim.Request{outer}
+				sc.Name = fmt.Sprintf("interleaved-%s-%s@%s#%d", k1, k2, outer.DuringAt, i)
+				if i == 0 {
+					r.Sample(map[string]interface{}{"kind": "interleaved", "outer": k1, "inner": k2, "preempted_in": outer.DuringAt})
+				}
+				res := sim.Run(sc)
+				r.Eval(1)
+				observeLog(r, res)
+				rp := res.Responses[0]
+				if len(rp.Inner) != 1 || rp.InnerStuck {
+					r.Count("interleaving_not_achieved", 1)
+					return
+				}
+				r.Count("interleavings."+outer.DuringAt, 1)
+				judgeResp(sc, k1, sup1, rp, "|preempted")
+				judgeResp(sc, k2, sup2, rp.Inner[0], "|served-meanwhile")
+			})
 		}
 		jobs = append(jobs, func() {
 			sc := baseScenario()
